@@ -4,6 +4,8 @@ source on this run: fail-fast and try-and-continue statements of Props/C07 for t
 regenerated pool.
 -/
 import Golem.Props.C07
+import Golem.Gen.PipeText
+import Golem.Model.GoText
 import Golem.Props.Stage.PipeCatch
 import Golem.Props.Stage.PipeMap
 import Golem.Props.Stage.PipeFMap
@@ -51,5 +53,9 @@ theorem emit_error_iter_gen (m : ErrMode) (freq : Nat) (f : Nat → α × Option
 theorem emit_ok_iter_gen (m : ErrMode) (freq : Nat) (f : Nat → α × Option ε) (i : Nat) (h : (f i).2 = none) :
     (DSLT.emitIter m freq f i) = ([.sleep freq, .send 0 (.inl (f i).1) .sel], .cont) := by
   simp [DSLT.emitIter, h]
+
+/-- `StdErr` (the standard reader of the error channel: ranges over `exx` until it is closed, logging every non-nil
+error): line for line the text the lock-step driver's always-ready drain was written against — a syntactic tie -/
+theorem stdErr_text : Gen.PipeText.StdErr_text = GoText.StdErr_text := rfl
 
 end Golem.Props.C07
